@@ -5,7 +5,8 @@ R05b nothing unbound: every wire read and every data parameter of an offered ver
 R05d refusal instead of silent reduction: wire values used as exponents carry a range fact, wire
      values used as bases / group elements carry a membership fact,
 R05e the fixed-base powers refuse a base that differs from their table,
-R05a/R05c informational: variadic hash arity, Fiat-Shamir coverage."""
+R05a variadic hash arity: a count below the number of values passed leaves the trailing ones out of
+     the challenge (violation); a count above it is C12's; R05c informational."""
 import ast
 from . import invcheck, verifiers
 from .. import inventory
@@ -276,10 +277,11 @@ def r05e(ctx):
     ctx.floor('R05e', n, 3)
 
 
-def r05a(ctx):
+def r05a(ctx, rule='R05a'):
     """variadic hash arity: the count argument equals the number of variadic mpz arguments"""
     prog = ctx.prog
     n = 0
+    occ = {}
     for key, f in prog.funcs.items():
         for e in walk(f.get('body')):
             if e.get('k') == 'call' and e.get('f', '').startswith('tmcg_mpz_shash') and e.get('va') is not None:
@@ -290,16 +292,22 @@ def r05a(ctx):
                 cnt = args[fixed - 1]
                 nvar = len(args) - fixed
                 n += 1
-                k2 = 'R05a:%s:%d' % (f['q'], e.get('l', 0))
+                k2 = rule + ':%s:%d' % (f['q'], e.get('l', 0))
                 if isinstance(cnt, dict) and cnt.get('k') == 'int':
                     if cnt['v'] == nvar:
-                        ctx.ok('R05a', 'R05a:%s:%s' % (f['q'], e['f']), 'hash count argument equals the number of variadic arguments', f, line=e.get('l'))
+                        ctx.ok(rule, rule + ':%s:%s' % (f['q'], e['f']), 'hash count argument equals the number of variadic arguments', f, line=e.get('l'))
                     elif cnt['v'] > nvar:
-                        ctx.note('R05a', k2, 'hash count %d exceeds the %d arguments passed (reads past the argument list; reported under C12)' % (cnt['v'], nvar), f, line=e.get('l'))
+                        ctx.note(rule, k2, 'hash count %d exceeds the %d arguments passed (reads past the argument list; reported under C12)' % (cnt['v'], nvar), f, line=e.get('l'))
                     else:
-                        ctx.note('R05a', k2, 'hash count %d below the %d arguments passed: trailing inputs are not hashed (weak hash)' % (cnt['v'], nvar), f, line=e.get('l'))
+                        # values handed to the Fiat-Shamir hash but cut off by its count are not bound by the
+                        # challenge although the call site says they are (no honest run notices: prover and
+                        # verifier share the slip); occurrence-numbered key, no line numbers
+                        occ[(f['q'], e['f'])] = occ.get((f['q'], e['f']), 0) + 1
+                        ctx.bad(rule, rule + ':%s:%s#%d' % (f['q'], e['f'], occ[(f['q'], e['f'])]),
+                                'the hash is told to read %d values but %d are passed: the last %d (%s) are silently left out of the challenge' % (
+                                    cnt['v'], nvar, nvar - cnt['v'], ', '.join(str(x.get('n') or x.get('k')) for x in args[fixed + cnt['v']:])), f, line=e.get('l'))
                 else:
-                    ctx.note('R05a', k2, 'hash count is not a constant', f, line=e.get('l'))
+                    ctx.note(rule, k2, 'hash count is not a constant', f, line=e.get('l'))
     ctx.info['variadic_hash_sites'] = n
 
 
